@@ -5,7 +5,8 @@
 EXTENDS KMesh
 VARIABLES grp, lat, G, box
 vars == <<grp, lat, G, box>>
-Init == /\ grp \in GroupNames /\ lat = Catalogue[grp].lat /\ G = GroupOf(grp) /\ box = BoxPreserving(GroupOf(grp))
+GT == TLCEval([nm \in GroupNames |-> GroupOf(nm)])
+Init == /\ grp \in GroupNames /\ lat = Catalogue[grp].lat /\ G = GT[grp] /\ box = BoxPreserving(GT[grp])
 Next == UNCHANGED vars
 Spec == Init /\ [][Next]_vars
 GroupAxioms == IsGroup(G)
